@@ -144,7 +144,7 @@ def step(ctx, desc, x, pre_hook=None):
     r = Rec()
     r.pre_clause = ""
     try:
-        tree, nodes = B.build(shape, labels, ids=ids, kinds=kinds, cls="TypedTree" if typed else "Tree", cleared=cleared)
+        tree, nodes = B.build(shape, labels, ids=ids, kinds=kinds, cls="TypedTree" if typed else "Tree", cleared=cleared, order=desc.get("order"))
     except Exception as e:  # noqa: BLE001
         # The pre-state itself is not constructible (e.g. two siblings with
         # the same data_id): outside the claim, not a finding.
